@@ -7,6 +7,9 @@ def T(qcases, tcases, qbudget=240, tbudget=1500, workers=16):
             "thorough": dict(cases=tcases, budget_s=tbudget, workers=workers)}
 
 PROPS = {
+    "C11": dict(sources=["props/C11.cpp"], jls=True, tiers=T(300, 4000),
+                assumptions=["annotation timestamps of FSR signals are reported relative to the first sample id (reader.h)",
+                             "string/json payloads are returned with their terminating NUL counted in data_size"]),
     "C13": dict(sources=["props/C13.cpp"], jls=True, tiers=T(400, 5000),
                 assumptions=["strings are NUL-terminated byte strings without interior NUL; any other byte value is allowed",
                              "a definition whose string exceeds the internal 1 MiB string block may be rejected (but must not corrupt anything)",
@@ -36,6 +39,10 @@ PROPS = {
 HOOK_COMMITS = ["6203c3e4032b5e35344eee56bc8020982a6abdeb"]
 
 MANIFEST_TEXT = {
+    "C11": dict(
+        technique="model-based property testing: generated timestamp multisets (runs of equal timestamps aimed at index-chunk edges) x all seek points against a list model",
+        level_text="Generated annotation sequences for the global signal 0 and FSR signals with zero, large and negative first sample ids, decimate factors 2/3/10/default so that 1-3 index levels exist; full iteration compared field by field; for every distinct timestamp, timestamp-1, before-first and after-last the delivered list must be a contiguous tail containing every item >= t and at most one earlier item; stop requests end the iteration.",
+        level_note="Trusted: the list model and the tail predicate. Decimate factor 1 is outside the generated domain (C10 covers extreme parameters)."),
     "C13": dict(
         technique="model-based property testing: generated definition/user-data programs incl. invalid and duplicate ids against a record model; rejected operations must leave the VFS bytes unchanged",
         level_text="Generated programs mix valid, duplicate, reserved and out-of-range source/signal ids, undefined sources, invalid types, VSR signals, data ops for undefined or wrong-type signals, strings (absent, empty, UTF-8, up to and beyond the 1 MiB string block) and user data (0 bytes .. 3 MiB, tags up to 0xffff, all storage types). Every verdict is compared with the model, rejected ops are checked byte-for-byte against the file, and the reader's enumeration (id order incl. reserved 0/0, strings, type, rate, decimation factors, user data order/tag/type/size/bytes, stop request) against the record model.",
